@@ -94,6 +94,12 @@ func (c *allOfConstraintCompiler) extendWith(node ischema.Node, name string) {
 	if !ok {
 		panic(errs.ErrUnacceptableUserTypeInAllOfRule.F(name))
 	}
+	if fromObject.Constraint(constraint.TypesListConstraintType) != nil ||
+		fromObject.Constraint(constraint.AnyConstraintType) != nil {
+		// `{} // {or: [...]}`, `{} // {type: "any"}`: the empty object is only the
+		// example of a type that admits other values as well - not an object type.
+		panic(errs.ErrUnacceptableUserTypeInAllOfRule.F(name))
+	}
 
 	// It is not obligatory to make a check for casting to type *schema.ObjectNode.
 	// The constraint cannot be applied to other types of nodes.
